@@ -52,13 +52,45 @@ def scenario(rnd):
             return scn
 
 
-def explore(rnd, scn, compiled, nthreads, budget):
+def directed_scenarios(rnd):
+    """Definitions whose parse computes something from the data and uses it later (array lengths from fields, bit units, union
+    members, strings): whatever a reader parks on a shared type object between computing and using it is clobbered by another
+    thread parsing OTHER data.  Inputs are small numbers so that the threads' lengths are valid and different."""
+    u8, u16 = A.t_int("uint8"), A.t_int("uint16")
+    pair = A.t_struct("pr", [A.field("a", u8), A.field("b", u8)])
+    row = A.t_struct("rw", [A.field("k", u8), A.field("d", A.t_arr(u8, A.L_expr(A.e_id("k"))))])
+    defs = [
+        A.t_struct("D1", [A.field("n", u8), A.field("w", u8), A.field("values", A.t_arr(u16, A.L_expr(A.e_id("n")))),
+                          A.field("grid", A.t_arr(A.t_arr(A.t_char(), A.L_expr(A.e_id("w"))), A.L_expr(A.e_id("n")))), A.field("tail", u8)]),
+        A.t_struct("D2", [A.field("a", u16, 4), A.field("b", u16, 12), A.field("d", A.t_arr(u8, A.L_expr(A.e_id("a")))),
+                          A.field("c", A.t_int("uint32"), 8), A.field("e", A.t_int("uint32"), 24)]),
+        A.t_struct("D3", [A.field("n", u8), A.field("ps", A.t_arr(pair, A.L_expr(A.e_bin("+", A.e_id("n"), A.e_lit(1))))),
+                          A.field("z", A.t_arr(u16, A.L_NULL)), A.field("s", A.t_arr(A.t_wchar(), A.L_expr(A.e_id("n"))))]),
+        A.t_struct("D4", [A.field("m", u8), A.field("rows", A.t_arr(row, A.L_expr(A.e_id("m")))), A.field("t", u8)]),
+        A.t_struct("D5", [A.field("n", u8), A.field("body", A.t_struct("ub", [A.field("x", A.t_arr(u8, A.L_expr(A.e_id("n")))), A.field("y", u16)], union=True)),
+                          A.field("l", A.t_leb(False)), A.field("q", A.t_arr(u8, A.L_expr(A.e_id("l"))))]),
+    ]
+    out = []
+    for t in defs:
+        mode = {"endian": rnd.choice("<>"), "align": rnd.random() < 0.3, "ptr": 8}
+        out.append({"type": t, "mode": mode, "consts": {}, "defs": A.render(t)})
+    return out
+
+
+def small_inputs(rnd, nthreads, start):
+    datas = []
+    while len(set(datas)) < nthreads:
+        datas = [bytes(rnd.randrange(256) for _ in range(start)) + bytes(rnd.choice([0, 1, 1, 2, 2, 3, 4]) for _ in range(70)) for _ in range(nthreads)]
+    return datas
+
+
+def explore(rnd, scn, compiled, nthreads, budget, datas=None):
     """Run the scenario under many schedules; returns (records of distinct outcomes, number of schedules, divergences)."""
     t, mode = scn["type"], scn["mode"]
     cs = codec.load(scn["defs"], mode, compiled)
     T = getattr(cs, t["name"])
     start = codec.start_for(rnd, scn)
-    datas = [codec.gen_input(rnd, start, maxlen=70) for _ in range(nthreads)]
+    datas = small_inputs(rnd, nthreads, start) if datas == "small" else [codec.gen_input(rnd, start, maxlen=70) for _ in range(nthreads)]
     funcs = [thread_func(T, t, d, start) for d in datas]
     solo = []
     lines = []
@@ -111,7 +143,8 @@ class ThreadsCheck:
                     "deterministic scheduler (sys.settrace line events in dissect/cstruct and generated readers): EVERY "
                     "single-preemption schedule of thread 0 and of thread 1 (sampled above the budget), sampled double preemptions and "
                     "3-thread rotations, over random definitions with expression lengths, bit-fields, unions, pointers (dereferenced in "
-                    "the thread) and arrays, both readers; every distinct per-thread outcome is validated against Decode; "
+                    "the thread) and arrays, both readers, plus five directed definitions (lengths from fields in 1 and 2 dimensions, bit units, "
+                    "arrays of dynamic structures, union, LEB128 length) on small, different inputs; every distinct per-thread outcome is validated against Decode; "
                     "non-trivial = distinct (scenario, thread, outcome) records")
         run_mc(rep, "MC_Threads", cfg="MC_Threads_3" if thorough else "MC_Threads")
         neg = tlc.run(tlc.VERIF + "/mc/MC_Threads.tla", tlc.VERIF + "/mc/MC_Threads_shared.cfg", workers=4)
@@ -128,6 +161,15 @@ class ThreadsCheck:
             recs += r
             nsched += n
             ndiv += d
+        for scn in directed_scenarios(rnd):
+            for compiled in (False, True):
+                try:
+                    r, n, d = explore(rnd, scn, compiled, 2, 1500 if thorough else 500, datas="small")
+                except RuntimeError as e:
+                    raise MachineryError(str(e)) from e
+                recs += r
+                nsched += n
+                ndiv += d
         rep.extra["schedules_executed"] = nsched
         rep.extra["thread_results_differing_from_solo"] = ndiv
         adjudicate(rep, recs, {"status", "value", "pos", "sizes", "dump"}, nontrivial=lambda r: True)
